@@ -541,7 +541,7 @@ impl Property for C06 {
         "cases: constructor x generated argument: the 11 public constants; decoders on near-miss strings; Standard/UniformRand samplers for Element and \
          AffinePoint driven by generated RNG streams (replayed prefix of 0..=256 structured bytes, then ChaCha20); AffineRepr::from_random_bytes on \
          0..=80-byte strings incl. y-coordinates of group points, coset partners and 4-torsion shifts; normalize_batch / batch_convert_to_mul_base on \
-         vectors of 0..=6 recipes; 10 conversion / cofactor operations; encode_to_curve / hash_to_curve. Oracle: validity predicate evaluated by the \
+         vectors of 0..=6 recipes and on batches of up to 700 elements around the 128 / 256 block boundaries; 10 conversion / cofactor operations; encode_to_curve / hash_to_curve incl. related input pairs (equal, opposite, cancelling summands); samplers on stuck / short-cycle RNG streams; elements built by recipes on both configurations (operator forms, ladders, constant-time selection glue); R1CS ElementVar::value() of variables allocated from arbitrary field values; the library's own Valid::check / batch_check on every valid element. Oracle: validity predicate evaluated by the \
          model on the coordinates (on the curve, Z != 0, T*Z = X*Y, r*P in {(0,+-1)}) plus decode(encode(E)) == E and r*E identity through the API. \
          Non-trivial: constructor call with a generated argument that returned an element; distinct by digest"
             .into()
